@@ -1,0 +1,31 @@
+//go:build verif
+
+// Contracts for package crypto, checked by /verif/govc (see /verif/DESIGN.md).
+// This file contains only comments: it adds no code to any build.
+
+package crypto
+
+//@ use streams
+//@ use net
+
+// readMore: the result is buf followed by EXACTLY the bytes received from the
+// connection (never bytes that were not received), at least n in total on
+// success: what the handshake parsers see does not depend on how TCP split
+// the peer's bytes.
+//@ func readMore
+//@   requires conn != nil && n >= 0 && m >= 0 && n <= 1<<20 && m <= 1<<20 && len(buf) <= 1<<20
+//@   modifies consumed(conn), buf[__]
+//@   ensures  [enough] $r1 == nil ==> len($r0) >= n
+//@   ensures  [exact]  len($r0) == old(len(buf)) + (consumed(conn) - old(consumed(conn)))
+//@   ensures  [prefix] forall k int :: 0 <= k && k < old(len(buf)) ==> $r0[k] == old(buf[k])
+//@   ensures  [bytes]  forall k int :: old(len(buf)) <= k && k < len($r0) ==> $r0[k] == streamAt(conn, old(consumed(conn)) + k - old(len(buf)))
+//@   props    C07
+
+// DefaultOptions: the policy is well-formed for both switches: force implies
+// prefer implies allow, for the handshake and for the stream alike, and force
+// is on exactly when asked.
+//@ func DefaultOptions
+//@   ensures  [wf]    $r0 != nil && $r0.AllowCryptoHandshake && $r0.AllowEncryption && ($r0.ForceCryptoHandshake ==> $r0.PreferCryptoHandshake) && ($r0.ForceEncryption ==> $r0.PreferEncryption)
+//@   ensures  [force] $r0.ForceCryptoHandshake == force && $r0.ForceEncryption == force
+//@   ensures  [prefer] $r0.PreferCryptoHandshake == (prefer || force) && $r0.PreferEncryption == (prefer || force)
+//@   props    C08
